@@ -49,6 +49,9 @@ def op_tc_unpack(a):
     raw = unhx(a["raw"])
     t = PusTc.unpack(raw)
     n = t.packet_len
+    # (before pack(), which recomputes the stored checksum)
+    if t.crc16 is not None and bytes(t.crc16) != raw[n - 2:n]:
+        raise SelfCheckFailure("crc16 of the decoded packet is not the packet's own trailer")
     if bytes(t.pack()) != raw[:n]:
         raise SelfCheckFailure("pack(unpack(b)) != b[:packet_len]")
     return _tc_fields(t)
